@@ -198,7 +198,7 @@ G_EFF_TWIN = [_ge("twin_g_effects", "vacuity twin", "", role="twin", timeout_s=6
 
 CHECKS["C09"] = {
     "bounds": "2..3 direct subscribers; unsubscribe of the first / middle / last, once and twice; notifications before and after; release by clear_subscribers() and by stop(); notification data symbolic",
-    "outside": "an unsubscribe() landing INSIDE a notification round of the same action (between the subscriber snapshot and the callback): needs a client call placed inside a subscriber callback (S- harness, not yet registered); channeled subscribers' lifecycle is checked under C10; more than 3 subscribers",
+    "outside": "an unsubscribe() landing INSIDE a notification round of the same action (between the subscriber snapshot and the callback): beyond the solver (68 M SAT variables) - this is where the LISTED C09 finding lives (demonstrated with real threads, no solver witness); the thorough tier decides that a subscriber removed during a round does not disturb the others; channeled subscribers' lifecycle is checked under C10; more than 3 subscribers",
     "assumptions": [_SEQ_ASSUME],
     "quick": U_SUBS_Q + U_SUBS_TWIN,
     "thorough": U_SUBS_T,
